@@ -96,6 +96,31 @@ static void c01(void) {
   coap_delete_pdu(pdu);
 }
 
+/* bins <udp datagram> <number> <value>: coap_insert_option on a parsed datagram; prints the
+ * option+payload area afterwards (byte-level tie of Wire/InsertBytes.v) */
+static void bins(void) {
+  size_t n, vl;
+  uint8_t *b = bytes_of_tok(vtok[1], &n);
+  unsigned num = (unsigned)atoi(vtok[2]);
+  uint8_t *v = bytes_of_tok(vtok[3], &vl);
+  coap_pdu_t *pdu = coap_pdu_init(0, 0, 0, n + vl + 64);
+  if (!pdu) { puts("ERROR alloc"); free(b); free(v); return; }
+  if (!coap_pdu_parse(COAP_PROTO_UDP, b, n, pdu)) puts("REJECT");
+  else if (num >= pdu->max_opt) puts("append");
+  else {
+    size_t before = pdu->used_size;
+    size_t r = coap_insert_option(pdu, (coap_option_num_t)num, vl, v);
+    size_t tl = pdu->e_token_length;
+    /* growth of the area (the return value is the size of the new option alone) */
+    printf("r=%ld area=", r ? (long)pdu->used_size - (long)before : 0L);
+    show_bytes(stdout, pdu->token + tl, pdu->used_size - tl);
+    fputc('\n', stdout);
+  }
+  coap_delete_pdu(pdu);
+  free(b);
+  free(v);
+}
+
 static void c03(void) {
   size_t n;
   uint8_t *b = bytes_of_tok(vtok[2], &n);
@@ -173,6 +198,7 @@ int main(void) {
     if (!strcmp(vtok[0], "c01")) c01();
     else if (!strcmp(vtok[0], "c03") || !strcmp(vtok[0], "c02")) c03();
     else if (!strcmp(vtok[0], "psize")) psize();
+    else if (!strcmp(vtok[0], "bins") && vntok == 4) bins();
     else if (!strcmp(vtok[0], "optparse")) optparse();
     else if (!strcmp(vtok[0], "optenc")) optenc();
     else if (!strcmp(vtok[0], "optrt")) optrt();
